@@ -8,6 +8,7 @@ import (
 	"github.com/zenon-network/go-zenon/chain/nom"
 	"github.com/zenon-network/go-zenon/common"
 	"github.com/zenon-network/go-zenon/common/types"
+	"github.com/zenon-network/go-zenon/vm/constants"
 	"github.com/zenon-network/go-zenon/vm/embedded/definition"
 )
 
@@ -289,6 +290,14 @@ func (block *AccountBlock) prefetchToken(chain chain.Chain) error {
 	store := chain.GetFrontierMomentumStore()
 	if block.TokenStandard != types.ZeroTokenStandard {
 		token, err := store.GetTokenInfoByTs(block.TokenStandard)
+		if err == constants.ErrDataNonExistent {
+			// the token was issued by a block that is not confirmed yet: consult the uncommitted
+			// state of the token contract; an unknown token is served without token info
+			token, err = definition.GetTokenInfo(chain.GetFrontierAccountStore(types.TokenContract).Storage(), block.TokenStandard)
+			if err == constants.ErrDataNonExistent {
+				token, err = nil, nil
+			}
+		}
 		if err != nil {
 			return err
 		}
